@@ -233,6 +233,104 @@ let upload_s files block password script =
       let body = events_s (evs', left) in
       (match evs with EvW _ :: _ -> man ^ (if body = "" then "" else " " ^ body) | _ -> body)
 
+(* ---------- client histories ---------- *)
+let utf8_cps (s : string) : n list =
+  (* tokens and serials are ASCII in the scenarios *)
+  List.init (String.length s) (fun i -> n_of_int (Char.code s.[i]))
+let string_of_bytes_hex h = String.concat "" (List.map (fun b -> String.make 1 (Char.chr (int_of_n b))) (unhex h))
+let show_text (s : string) =
+  String.map (fun c -> if (c >= 'a' && c <= 'z') || (c >= 'A' && c <= 'Z') || (c >= '0' && c <= '9')
+                          || String.contains "-_.:()/=," c then c else '_') s
+let ocaml_string (s : Model.string) : string =
+  let b = Buffer.create 32 in
+  let rec go = function
+    | EmptyString -> ()
+    | String (Ascii (b0, b1, b2, b3, b4, b5, b6, b7), r) ->
+        let v x k = if x then 1 lsl k else 0 in
+        Buffer.add_char b (Char.chr (v b0 0 + v b1 1 + v b2 2 + v b3 3 + v b4 4 + v b5 5 + v b6 6 + v b7 7)); go r in
+  go s; Buffer.contents b
+let cps_text (l : n list) = String.concat "" (List.map (fun c -> String.make 1 (Char.chr (int_of_n c land 255))) l)
+
+let parse_cfg (s : string) : config =
+  let serial = ref [] and tid = ref [] and cur = ref 978 and amount = ref 2500 and rct = ref 15 and pw = ref 0 and mx = ref 1 in
+  List.iter (fun kv ->
+    match String.split_on_char '=' kv with
+    | ["serial"; v] -> serial := utf8_cps (string_of_bytes_hex v)
+    | ["tid"; v] -> tid := utf8_cps v
+    | ["cur"; v] -> cur := int_of_string v
+    | ["amount"; v] -> amount := int_of_string v
+    | ["rct"; v] -> rct := int_of_string v
+    | ["pw"; v] -> pw := int_of_string v
+    | ["max"; v] -> mx := int_of_string v
+    | _ -> failwith ("config " ^ kv)) (String.split_on_char ';' s);
+  { c_serial = !serial; c_terminal_id = !tid; c_currency = n_of_int !cur; c_amount = n_of_z (ZA.of_int !amount);
+    c_read_card_timeout = n_of_int !rct; c_password = n_of_int !pw; c_max = n_of_int !mx }
+
+let parse_ops (s : string) : op list =
+  if s = "-" then [] else
+  List.map (fun o ->
+    match String.split_on_char ':' o with
+    | ["configure"] -> OConfigure
+    | ["read_card"] -> OReadCard
+    | ["begin"; t] -> OBegin (utf8_cps (string_of_bytes_hex t))
+    | ["cancel"; t] -> OCancel (utf8_cps (string_of_bytes_hex t))
+    | ["commit"; t; a] -> OCommit (utf8_cps (string_of_bytes_hex t), n_of_string a)
+    | _ -> failwith ("op " ^ o)) (String.split_on_char ';' s)
+
+let parse_scripts (s : string) : cscript list =
+  if s = "-" then [] else
+  List.map (fun c ->
+    if c = "refused" then { cs_refused = true; cs_chunks = []; cs_close = false } else begin
+      let close = ref false in
+      let chunks = List.filter_map (fun item ->
+        match item with
+        | "S" | "" -> close := false; None
+        | "C" -> close := true; None
+        | _ -> (match String.index_opt item ':' with
+                | Some k ->
+                    let d = String.sub item 0 k and h = String.sub item (k + 1) (String.length item - k - 1) in
+                    Some ((if d = "N" then None else Some (n_of_string d)), unhex h)
+                | None -> failwith "chunk")) (String.split_on_char ',' c) in
+      { cs_refused = false; cs_chunks = chunks; cs_close = !close }
+    end) (String.split_on_char '|' s)
+
+let err_text = function
+  | EActiveMax -> "Err:Active:max" | EActiveInUse -> "Err:Active:inuse" | EUnknownToken -> "Err:UnknownToken"
+  | ENoCard -> "Err:NoCard" | ENeedsPin -> "Err:NeedsPin" | EUnexpectedPacket -> "Err:UnexpectedPacket"
+  | EAborted c -> "Err:Zvt:Aborted:" ^ string_of_n c
+  | EIncomplete -> "Err:Zvt:IncompleteData"
+  | EUnknownCode c -> "Err:Msg:" ^ show_text (Printf.sprintf "Unknown error code: 0x%X" (int_of_n c))
+  | EUnhandled c ->
+      let msg = try (let ((_, _), m) = List.find (fun ((k, _), _) -> int_of_n k = int_of_n c) error_table in ocaml_string m)
+                with Not_found -> "?" in
+      "Err:Msg:" ^ show_text ("Unhandled error: " ^ msg)
+  | EUnknownCardType -> "Err:Msg:" ^ show_text "Unknown card type"
+  | EParseTid -> "Err:Msg:" ^ show_text "invalid digit found in string"
+
+let opt_n f = function Some x -> f x | None -> "-"
+let opres_text = function
+  | PUnit (ROk _) -> "Ok"
+  | PUnit (RErr e) | PCard (RErr e) | PSummary (RErr e) -> err_text e
+  | PCard (ROk CBank) -> "Ok:Bank"
+  | PCard (ROk (CMember id)) -> "Ok:Member:" ^ show_text (cps_text id)
+  | PSummary (ROk m) ->
+      Printf.sprintf "Ok:tid=%s,amount=%s,trace=%s,date=%s,time=%s"
+        (opt_n string_of_n m.m_tid) (opt_n string_of_n m.m_amount) (opt_n string_of_n m.m_trace)
+        (opt_n (fun x -> Printf.sprintf "%04d" (int_of_n x)) m.m_date) (opt_n (fun x -> Printf.sprintf "%06d" (int_of_n x)) m.m_time)
+
+let event_text = function
+  | EOpen (id, t) -> Printf.sprintf "O%s@%s" (string_of_n id) (string_of_n t)
+  | ERefused t -> "X@" ^ string_of_n t
+  | EWrite (id, t, b) -> Printf.sprintf "W%s@%s:%s" (string_of_n id) (string_of_n t) (hex b)
+  | EDrop (id, t) -> Printf.sprintf "D%s@%s" (string_of_n id) (string_of_n t)
+
+let client_s cfg ops scripts =
+  let (((tnew, rs), _), w) = run_history (parse_cfg cfg) (parse_ops ops) (parse_scripts scripts) in
+  let results = ("new@" ^ string_of_n tnew) ::
+    List.map (fun ((r, t0), dt) -> Printf.sprintf "%s@%s+%s" (opres_text r) (string_of_n t0) (string_of_n dt)) rs in
+  Printf.sprintf "%s || %s || T=%s" (String.concat ";" results)
+    (String.concat " " (List.rev_map event_text w.w_log)) (string_of_n w.w_now)
+
 let wr_s len =
   let w =
     if len = 0 then (match run_enc (coq_string "zvt::packets::Ack") (VRec []) with Some (Ok b) -> b | _ -> failwith "ack")
@@ -266,6 +364,7 @@ let () =
               let bs = List.init k (fun j -> n_of_int ((i lsr (8 * (k - 1 - j))) land 255)) in
               emit (len_de_s f.(1) (bs @ suffix))
             done
+        | "client" -> emit (client_s f.(1) f.(2) f.(3))
         | "ldec" -> emit (ldec_s f.(1) f.(2) (unhex f.(3)))
         | "seq" -> emit (seq_s f.(1) (unhex f.(2)) (unhex f.(3)))
         | "uploadm" -> emit (upload_s f.(1) f.(2) f.(3) (unhex f.(4)))
